@@ -307,9 +307,9 @@ impl Scenario for C17 {
         }
         let n = p.events.len();
         let mut chunk = n / 2;
-        while chunk >= 1 {
+        while chunk >= 1 && out.len() * (n + 1) < 3_000_000 {
             let mut i = 0;
-            while i < n {
+            while i < n && out.len() * (n + 1) < 3_000_000 {
                 let mut q = p.clone();
                 q.events.drain(i..(i + chunk).min(n));
                 out.push(q);
@@ -322,9 +322,9 @@ impl Scenario for C17 {
         }
         let n = p.feeds.len();
         let mut chunk = n / 2;
-        while chunk >= 1 {
+        while chunk >= 1 && out.len() * (n + 1) < 3_000_000 {
             let mut i = 0;
-            while i < n {
+            while i < n && out.len() * (n + 1) < 3_000_000 {
                 let mut q = p.clone();
                 q.feeds.drain(i..(i + chunk).min(n));
                 out.push(q);
